@@ -13,6 +13,7 @@ CLASSES = {
     "deque": {"fields": {"items": ("seq", "str")}, "bases": [], "lib": True},
     "list_str": {"fields": {"items": ("seq", "str")}, "bases": [], "lib": True},
     "list_ref": {"fields": {"items": ("seq", "int")}, "bases": [], "lib": True},
+    "list_ActionCall": {"fields": {"items": ("seq", ("ref", "ActionCall"))}, "bases": [], "lib": True},
     # ordered dict  str -> ref : key order + content; membership == Contains(keys, Unit(k)); keys distinct
     "dict_str_ref": {"fields": {"keys": ("seq", "str"), "map": ("map", "str", "int")}, "bases": [], "lib": True},
     "dict_str_str": {"fields": {"keys": ("seq", "str"), "map": ("map", "str", "str")}, "bases": [], "lib": True},
@@ -56,6 +57,10 @@ CLASSES = {
                             "grounded": "bool", "problem_objects": ("ref", "opaque"), "grounded_effects": ("ref", "opaque"),
                             "lifted_universal_effects": ("ref", "opaque"), "logger": ("ref", "opaque"),
                             "grounded_preconditions": ("ref", "opaque")}, "bases": [], "src": ("models.pddl_operator", "Operator")},
+    "MultiAgentTrajectoryExporter": {"fields": {"domain": ("ref", "Domain"), "allow_invalid_actions": "bool"}, "bases": [],
+                                     "src": ("multi_agent.multi_agent_trajectory_exporter", "MultiAgentTrajectoryExporter")},
+    "MultiAgentTrajectoryTriplet": {"fields": {"previous_state": ("ref", "State"), "joint_action": ("ref", "opaque"), "next_state": ("ref", "State")},
+                                    "bases": [], "src": ("multi_agent.multi_agent_trajectory_exporter", "MultiAgentTrajectoryTriplet")},
     "ENHSPParser": {"fields": {}, "bases": [], "src": ("exporters.enhsp_output_parser", "ENHSPParser")},
     "MetricFFParser": {"fields": {}, "bases": [], "src": ("exporters.ff_output_parser", "MetricFFParser")},
 }
